@@ -481,7 +481,9 @@ class TimeTriggeredPlanValidator(engines.engine.Engine, mixins.PlanValidatorMixi
             if inside_indexes_condition:
                 inside_indexes.append(x)
 
-        if not open_interval:
+        # the state holding at start stays in force right after it (so also in a
+        # left-open interval) unless it is replaced by a happening at start itself
+        if not open_interval or equal_time == before_time:
             yield before_time, trace[before_time]
         if equal_time != before_time and equal_time != end:
             yield equal_time, trace[equal_time]
